@@ -349,7 +349,7 @@ def gen_specs(tier, seed):
     except ImportError:
         return []
     n = 12 if tier == "quick" else 120
-    return [{"src": "gen", "seed": seeds.derive(seed, "c18gen", i) % (1 << 31), "nest": True} for i in range(n)]
+    return [{"src": "gen", "seed": seeds.derive(seed, "c18gen", i) % (1 << 31), "nest": True, "layout": 2} for i in range(n)]
 
 
 # ---------------------------------------------------------------------------
